@@ -45,6 +45,8 @@ type Plan struct {
 	DropAfter    time.Duration // >0: close the peer end this long after the connection came up
 	StallIn      int           // go SILENT (socket stays open, keep reading) after WRITING this many bytes (-1: never)
 	ReplyBody    []byte        // body of the data replies the peer sends
+	E4Cut        string        // SECS-I E4 peer: kill the link at this protocol position (see e4.go); "" = never
+	E4Under      bool          // how: false = the peer closes its end; true = the harness closes the LIBRARY's end underneath it
 }
 
 // CloseWatchdog: a Close that has not returned after this long is reported as hung and abandoned.
@@ -119,6 +121,8 @@ type Ev struct {
 type Rig struct {
 	Active bool
 	Secs1  bool // SECS-I over TCP instead of HSMS-SS: the scripted peer only holds / reads / cuts the line
+	E4     bool // ... unless E4 is set: then the peer speaks the SEMI E4 line protocol (e4.go)
+	Equip  bool // SECS-I role of the LIBRARY end (equipment = master)
 	Conn   hsms.Connection
 	Sid    uint16
 
@@ -223,7 +227,17 @@ func New(active bool, cfg Cfg, planFn func(n int) Plan) (*Rig, error) {
 // peer does not speak E4: it holds the line, reads and discards, drops or cuts per its plan — enough
 // for the life-cycle properties (a SECS-I link is Selected as soon as the TCP connection is up).
 func NewSecs1(active bool, cfg Cfg, planFn func(n int) Plan) (*Rig, error) {
-	r := &Rig{Active: active, Secs1: true, Sid: 7, planFn: planFn, lisCh: make(chan *plistener, 256), inflight: map[int64]*callRec{},
+	return newSecs1(active, false, false, cfg, planFn)
+}
+
+// NewSecs1E4 is NewSecs1 against a peer that speaks the E4 line protocol (ENQ/EOT/block/ACK), so
+// that round trips work and the link can be killed at every position of an exchange.
+func NewSecs1E4(active, equip bool, cfg Cfg, planFn func(n int) Plan) (*Rig, error) {
+	return newSecs1(active, true, equip, cfg, planFn)
+}
+
+func newSecs1(active, e4, equip bool, cfg Cfg, planFn func(n int) Plan) (*Rig, error) {
+	r := &Rig{Active: active, Secs1: true, E4: e4, Equip: equip, Sid: 7, planFn: planFn, lisCh: make(chan *plistener, 256), inflight: map[int64]*callRec{},
 		CloseTimeout: cfg.CloseTimeout}
 	opts := []secs1.Option{
 		secs1.WithT1(20 * time.Millisecond), secs1.WithT2(30 * time.Millisecond), secs1.WithT4(50 * time.Millisecond), secs1.WithT5(cfg.T5),
@@ -233,6 +247,11 @@ func NewSecs1(active bool, cfg Cfg, planFn func(n int) Plan) (*Rig, error) {
 	}
 	if cfg.ConnectTimeout > 0 {
 		opts = append(opts, secs1.WithConnectTimeout(cfg.ConnectTimeout))
+	}
+	if equip {
+		opts = append(opts, secs1.WithEquipment())
+	} else {
+		opts = append(opts, secs1.WithHost())
 	}
 	if active {
 		opts = append(opts, secs1.WithActive(), secs1.WithDialer(r.dial))
@@ -402,6 +421,7 @@ type Frame struct {
 type Peer struct {
 	r      *Rig
 	c      net.Conn
+	lib    net.Conn // the library's end of the same pipe (raw, beneath the tracking wrapper)
 	N      int // connection number
 	ConnID int
 	plan   Plan
@@ -425,6 +445,9 @@ type Peer struct {
 func (r *Rig) attach(c net.Conn, n int, p Plan, connID int) *Peer {
 	pe := &Peer{r: r, c: c, N: n, ConnID: connID, plan: p, Done: make(chan struct{})}
 	r.mu.Lock()
+	if connID >= 0 && connID < len(r.conns) {
+		pe.lib = r.conns[connID].Conn
+	}
 	r.peers = append(r.peers, pe)
 	r.mu.Unlock()
 	r.add(Ev{K: "U", ID: int64(n), N: [4]int64{int64(connID)}})
@@ -595,6 +618,10 @@ func Enc(sid uint16, b2, b3, pt, st byte, sys uint32, body []byte) []byte {
 func (p *Peer) run() {
 	defer close(p.Done)
 	defer p.Close()
+	if p.r.Secs1 && p.r.E4 {
+		p.runE4()
+		return
+	}
 	if p.r.Secs1 {
 		if p.plan.DropAfter > 0 {
 			go func() {
@@ -1110,16 +1137,38 @@ func b01(b bool) string {
 
 // SendRoundTrip sends one W-bit primary and reports whether a reply came back.
 func (r *Rig) SendRoundTrip(timeout time.Duration) (ok bool, err error, panicked any) {
-	defer func() {
-		if p := recover(); p != nil {
-			panicked = p
-			r.Panics.Add(1)
-		}
+	type out struct {
+		ok  bool
+		err error
+		pn  any
+	}
+	ch := make(chan out, 1)
+	go func() {
+		var o out
+		defer func() {
+			if p := recover(); p != nil {
+				o.pn = p
+				r.Panics.Add(1)
+			}
+			ch <- o
+		}()
+		ctx, cancel := context.WithTimeout(context.Background(), timeout)
+		defer cancel()
+		rep, e := r.Conn.SendDataMessage(ctx, 1, 1, true, nil)
+		o.ok, o.err = e == nil && rep != nil, e
 	}()
-	ctx, cancel := context.WithTimeout(context.Background(), timeout)
-	defer cancel()
-	rep, err := r.Conn.SendDataMessage(ctx, 1, 1, true, nil)
-	return err == nil && rep != nil, err, nil
+	select {
+	case o := <-ch:
+		return o.ok, o.err, o.pn
+	case <-time.After(timeout + SendWatchdog):
+		return false, ErrSendHung, nil // the call is abandoned (it may return when the connection is closed)
+	}
 }
+
+// SendWatchdog: how long past its own context timeout a send may take before it is reported hung.
+const SendWatchdog = 3 * time.Second
+
+// ErrSendHung is returned by SendRoundTrip when SendDataMessage ignored its context.
+var ErrSendHung = errors.New("rig: SendDataMessage did not return within its context timeout + 3 s")
 
 var _ = io.EOF
